@@ -18,10 +18,11 @@ Here:
   `Pipe.empty`, `clone` COPIES the pipe — holes included, see `Props/C03W.lean` for what that means —,
   `new*` / `drop` create / forget a pipe, everything else (arena traffic, detached-slice surgery, `read_n`)
   is the identity.
-* the two side conditions of the step theorem (`PushFresh`, `NoShare`) and the per-handle ledger.
+* the side condition of the step theorem (`NoShare` / `FillFree`).
 -/
 import Woodpile.Proofs.IovecAnchOps
 import Woodpile.Proofs.IovecPriv
+import Woodpile.Proofs.IovecXAnch
 
 namespace Woodpile.Iovec
 open Woodpile.Arena
@@ -259,13 +260,10 @@ memory `j` references. -/
 def FillFree (w : World) (op : WOp) (j : Nat) : Prop :=
   ∀ X b bs, op = .backfill X b bs → X ≠ j → NoShare w X j
 
-/-- `push_aslice` pushes memory the target iovec does not reference yet (it always is when the anchored
-slice was not `s_clone`d: the slice comes from a fresh `read_n` allocation and pushing it consumes it). -/
-def PushFresh (w : World) (op : WOp) : Prop :=
-  ∀ i si v a, op = .pushASlice i si → w.iov i = some v → w.aslice si = some a → ∀ x ∈ v.slices, x.Disj a.slice
-
-/-- Every live iovec satisfies the single-iovec invariant of C03/C04. -/
-def AllInv (w : World) : Prop := ∀ i v, w.iov i = some v → IovInv w v
+/-- Every live iovec satisfies the single-iovec invariant of C03/C04 in the form that survives the
+multi-object vocabulary (`W.IovInv`, `Proofs/IovecXInv.lean`: slice disjointness replaced by "no other slice of
+the iovec covers a pending placeholder range"). -/
+def AllInv (w : World) : Prop := ∀ i v, w.iov i = some v → W.IovInv w v
 
 theorem allInv_init (pol : Policy) (tun : Tuning) : AllInv (World.init pol tun) := by
   intro i v h
